@@ -1,9 +1,10 @@
-\* negative control (thorough): every cross-wait program starves with the original waiters
+\* the quick matrix again, with <>AllDone under weak fairness (thorough tier)
 CONSTANTS
   SS = 2
   MaxW = 3
   Progs <- MCProgs
-  Configs <- CfgNoFixAll
+  Configs <- CfgQuick
 SPECIFICATION FairSpec
 CHECK_DEADLOCK TRUE
 INVARIANTS TypeOK AtMostOnce BarrierOK SleepersIdle NoStarvation
+PROPERTIES Termination
